@@ -49,6 +49,9 @@ pub enum Injection {
     NegativeProperty,
     NonNumericProperty,
     SelfReference,
+    /// a malformed substance whose first (well-formed) property is named like an existing unit:
+    /// nothing of it may remain visible after the load
+    MalformedSubstanceShadowingUnit,
 }
 
 impl Injection {
@@ -109,6 +112,14 @@ impl Injection {
                 Some(format!("nn{}x", i)),
             ),
             Injection::SelfReference => (format!("selfr{}x 2 selfr{}x\n", i, i), vec![format!("selfr{}x", i)], None),
+            Injection::MalformedSubstanceShadowingUnit => (
+                format!(
+                    "zlk{}x {{\n    u0 const u1 7 ba\n    pzlk{}x const izlk{}x 0 ba\n}}\n",
+                    i, i, i
+                ),
+                vec![format!("zlk{}x", i)],
+                Some("u0 + u0".to_string()),
+            ),
         }
     }
 }
@@ -596,6 +607,7 @@ fn injection() -> impl Strategy<Value = Injection> {
         Just(Injection::NegativeProperty),
         Just(Injection::NonNumericProperty),
         Just(Injection::SelfReference),
+        Just(Injection::MalformedSubstanceShadowingUnit),
     ]
 }
 
